@@ -25,7 +25,7 @@ struct Req {
 
 struct Options {
   unsigned flags = 0; bool flags_set = false; int tries = 3, timeout = 2000, maxtimeout = 0, ndots = -1, rotate = 0, udpmax = 0; long qcache = -1; std::string lookups, domains; bool domains_set = false;
-  int failover_chance = -1, failover_delay = 5000; int sockstate = 1, pendingwrite = 0, nonblock = 1, tfo = 0, ednspsz = 0; std::string process = "fds"; int c07 = 0; int mixed = 0; int cname_mod = 3;
+  int failover_chance = -1, failover_delay = 5000; int sockstate = 1, pendingwrite = 0, nonblock = 1, tfo = 0, ednspsz = 0; std::string process = "fds"; int c07 = 0; int mixed = 0; int cname_mod = 3; int asoa = 0; int nogsn = 0;
 };
 
 struct Verdict { bool ok = true; std::string sig, detail; };
@@ -218,7 +218,7 @@ struct Sim {
   bool init_channel() {
     if (ch) return true;
     ares_verif_tvnow = World::cb_tvnow; ares_verif_rand = World::cb_rand;
-    w.nonblocking = opt.nonblock; w.tfo_supported = opt.tfo; w.sockstate_cb = opt.sockstate; w.answer_mixed_families = opt.mixed; w.cname_depth_mod = opt.cname_mod > 0 ? opt.cname_mod : 3;
+    w.nonblocking = opt.nonblock; w.tfo_supported = opt.tfo; w.sockstate_cb = opt.sockstate; w.answer_mixed_families = opt.mixed; w.cname_depth_mod = opt.cname_mod > 0 ? opt.cname_mod : 3; w.answer_with_soa = opt.asoa != 0;
     std::string rc = write_tmp("resolv.conf", resolv_lines), hp = write_tmp("hosts", hosts_lines);
     if (!alias_lines.empty()) { std::string ap = write_tmp("aliases", alias_lines); setenv("HOSTALIASES", ap.c_str(), 1); } else unsetenv("HOSTALIASES");
     struct ares_options o; memset(&o, 0, sizeof o); int mask = 0;
@@ -240,7 +240,7 @@ struct Sim {
     if (rcI != ARES_SUCCESS) { ch = nullptr; notes.push_back("init failed: " + std::string(ares_strerror(rcI))); return false; }
     w.chan = ch;
     struct ares_socket_functions_ex f; memset(&f, 0, sizeof f); f.version = 1; f.flags = opt.nonblock ? ARES_SOCKFUNC_FLAG_NONBLOCKING : 0;
-    f.asocket = World::s_socket; f.aclose = World::s_close; f.asetsockopt = World::s_setsockopt; f.aconnect = World::s_connect; f.arecvfrom = World::s_recvfrom; f.asendto = World::s_sendto; f.agetsockname = World::s_getsockname;
+    f.asocket = World::s_socket; f.aclose = World::s_close; f.asetsockopt = World::s_setsockopt; f.aconnect = World::s_connect; f.arecvfrom = World::s_recvfrom; f.asendto = World::s_sendto; f.agetsockname = opt.nogsn ? nullptr : World::s_getsockname;   // the member is optional in the public structure
     ares_set_socket_functions_ex(ch, &f, nullptr);
     ares_set_server_state_callback(ch, cb_server_state, this);
     if (opt.pendingwrite) ares_set_pending_write_cb(ch, cb_pending_write, this);
